@@ -1380,3 +1380,80 @@ def vc_worker_errors_checked(fns, variants, work):
     eng.seeds = seeds
     eng.run()
     return summarize(eng, found, {"returns_checked": rets[0]}, work, "c18w", witness_ok=rets[0] > 0, witness_note="no return explored")
+
+
+# ------------------------------------------------------------------------------------------ C02 / C03 / C20: bookkeeping between hunks
+def vc_apply_bookkeeping(fns, variants, work):
+    """apply_modify (normal mode): the `last_hunk_offset` and `last_frozen_line` handed to try_apply_hunk for a hunk are those of
+    the most recent hunk that was reported applied -- offset = its report's offset, frozen line = its line + |trimmed old side|
+    - trimmed suffix context of the very view that matched -- and (0, -1) before the first applied hunk; whatever fuzz level
+    is being tried.  HunkView accessors are uninterpreted pure functions of the view."""
+    fn = find_fn(fns, r"::apply_modify$")
+    found, calls = [], [0]
+    A = variants["Applied"]
+
+    def view_base(eng, st, operand_s):
+        v, _, _ = eng.operand(st, operand_s)
+        if isinstance(v, Ref):
+            tv = st.store.get(v.target)
+            return tv.base if isinstance(tv, Agg) else v.target
+        return None
+
+    def uf(eng, name, base, rty):
+        key = ("uf", "uf_%s(%s)" % (name, base))
+        if key not in eng.lazy:
+            eng.lazy[key] = eng.fresh_for_type(key[1], rty)
+        return eng.lazy[key]
+
+    def on_call(eng, st, bb, site, stmt, dst, callee, args, nxt):
+        if not re.search(r"(^|::)try_apply_hunk$", callee.strip()) or len(args) < 6:
+            return None
+        off, _, _ = eng.operand(st, args[4])
+        frz, _, _ = eng.operand(st, args[5])
+        if off is None or frz is None or z3.is_bv_value(off) and z3.is_bv_value(frz) and "const" in args[4] and "const" in args[5]:
+            return None       # the rollback-mode call passes constants
+        calls[0] += 1
+        exp_off, exp_frz = z3.BitVecVal(0, 64), z3.BitVecVal(-1, 64)
+        n = len([k for k in st.store if k.startswith("ghost:tah_disc")])
+        for k in range(n):
+            d = st.store["ghost:tah_disc%d" % k]
+            exp_off = z3.If(d == A, st.store["ghost:tah_off%d" % k], exp_off)
+            exp_frz = z3.If(d == A, st.store["ghost:tah_frz%d" % k], exp_frz)
+        for got, want, what in ((off, exp_off, "previous hunk's offset"), (frz, exp_frz, "frozen line (line + |trimmed old side| - trimmed suffix context of the applied view)")):
+            ok, model = eng.feasible(st, [got != want])
+            eng.record_query("%s %s" % (bb, what[:30]), list(st.pc) + [got != want])
+            if ok:
+                found.append({"bb": bb, "stmt": stmt[:120], "what": "try_apply_hunk is not given the %s" % what, "model": model_values(model, ("uf_", "c_")), "trace": list(st.trace[-12:])})
+        st.store["ghost:pending_view"] = Ref(view_base(eng, st, args[0]) or "?")
+        return None
+
+    def after_call(eng, st, bb, site, stmt, dst, callee, args, argv):
+        if re.search(r"(^|::)try_apply_hunk$", callee.strip()) and dst and "ghost:pending_view" in st.store:
+            dpath, _ = eng.resolve(st, dst)
+            base = st.store.pop("ghost:pending_view").target
+            n = len([k for k in st.store if k.startswith("ghost:tah_disc")])
+            line = eng.read_path(st, dpath + "@Applied.0", "isize")
+            st.store["ghost:tah_disc%d" % n] = eng.read_path(st, dpath + "#disc", "isize")
+            st.store["ghost:tah_off%d" % n] = eng.read_path(st, dpath + "@Applied.2", "isize")
+            rc = uf(eng, "HunkView_remove_content", base, "&[&[u8]]")
+            ln = eng.obj_len(st, rc.target)
+            suf = uf(eng, "HunkView_suffix_context", base, "usize")
+            st.store["ghost:tah_frz%d" % n] = line + ln - suf
+
+    eng = Engine(fns, fn, variants, hooks={"on_call": on_call, "after_call": after_call}, unroll=3)
+    eng.pure_calls = [(r"HunkView::remove_content$", "&[&[u8]]"), (r"HunkView::suffix_context$", "usize"), (r"HunkView::prefix_context$", "usize"),
+                      (r"HunkView::add_content$", "&[&[u8]]")]
+    seeds = set()
+    for bb, stmts in fn.blocks.items():
+        for s_ in stmts:
+            m = callm(s_)
+            if m and re.search(r"(^|::)try_apply_hunk$", m.group(2).strip()):
+                a = mirvc.split_top(m.group(3))
+                seeds |= set(re.findall(r"_\d+", a[0] + " " + a[4] + " " + a[5]))
+                if m.group(1):
+                    seeds.add(m.group(1))
+    eng.seeds = seeds
+    eng.extra_modelled = r"HunkView::(remove_content|suffix_context|prefix_context|add_content)$|(^|::)try_apply_hunk$"
+    eng.run()
+    return summarize(eng, found, {"try_apply_hunk_call_sites_checked": calls[0]}, work, "c02b", witness_ok=calls[0] >= 3,
+                     witness_note="fewer than three successive calls explored")
